@@ -1,3 +1,4 @@
+#![cfg_attr(feature = "verif", allow(unused_imports))]
 //! # Rust implementation of the [callbag spec][callbag-spec] for reactive/iterable programming
 //!
 //! Basic [callbag][callbag-spec] factories and operators to get started with.
@@ -230,6 +231,8 @@ mod skip;
 #[cfg(feature = "take")]
 mod take;
 mod utils;
+#[cfg(feature = "verif")]
+pub mod verif;
 
 #[doc = include_str!("../README.md")]
 #[cfg(doctest)]
